@@ -173,32 +173,41 @@ void list_output_6502(
   Memory *memory = &asm_context->memory;
 
   fprintf(asm_context->list, "\n");
-  count = disasm_6502(
-    memory,
-    start,
-    instruction,
-    sizeof(instruction),
-    asm_context->flags,
-    &cycles_min,
-    &cycles_max);
 
-  bytes[0] = 0;
-  for (n = 0; n < count; n++)
+  // A range can hold several instructions (the copies of a .repeat block).
+  while (start < end)
   {
-    char temp[4];
-    snprintf(temp, sizeof(temp), "%02x ", memory->read8(start + n));
-    strcat(bytes, temp);
-  }
+    count = disasm_6502(
+      memory,
+      start,
+      instruction,
+      sizeof(instruction),
+      asm_context->flags,
+      &cycles_min,
+      &cycles_max);
 
-  fprintf(asm_context->list, "0x%04x: %-16s %-35s cycles: ", start, bytes, instruction);
+    bytes[0] = 0;
+    for (n = 0; n < count; n++)
+    {
+      char temp[4];
+      snprintf(temp, sizeof(temp), "%02x ", memory->read8(start + n));
+      strcat(bytes, temp);
+    }
 
-  if (cycles_min == cycles_max)
-  {
-    fprintf(asm_context->list, "%d\n", cycles_min);
-  }
-    else
-  {
-    fprintf(asm_context->list, "%d-%d\n", cycles_min, cycles_max);
+    fprintf(asm_context->list, "0x%04x: %-16s %-35s cycles: ", start, bytes, instruction);
+
+    if (cycles_min == cycles_max)
+    {
+      fprintf(asm_context->list, "%d\n", cycles_min);
+    }
+      else
+    {
+      fprintf(asm_context->list, "%d-%d\n", cycles_min, cycles_max);
+    }
+
+    if (count < 1) { break; }
+
+    start += count;
   }
 }
 
